@@ -23,17 +23,6 @@ func spec_handler_ok(h *Handler) bool {
 		vMapAll(h.table, func(k string, l *Lease) bool { return l != nil && spec_subnet_ok(l.subnet) })
 }
 
-// Every frame Parse classes as PayloadDHCP4 is processed without panic.
-// NOT PROVED and not part of any claimed check: executed whole (no contracts on handleRequest & co.)
-// the queries run to megabytes and minutes; kept as the starting point for per-function contracts.
-//
-//verif:timeout 120s
-func verif_lemma_dispatch_dhcp4(h *Handler, frame packet.Frame) {
-	vRequires(spec_handler_ok(h) && packet.VerifSpecFrameUDP(frame) && frame.PayloadID == packet.PayloadDHCP4)
-	vCanary()
-	_ = h.ProcessPacket(frame)
-}
-
 // ---------- lease file (C18) ----------
 
 // newSubnet: total for ANY configuration (the lease file is untrusted input): it returns an
@@ -213,7 +202,7 @@ func spec_dhcp_ok(h *Handler) bool {
 	return h != nil && h.session != nil && packet.VerifSpecSessionOK(h.session) && h.table != nil &&
 		spec_subnet_wf(h.net1) && spec_subnet_wf(h.net2) && spec_subnet_options_ok(h.net1) && spec_subnet_options_ok(h.net2) &&
 		vMapAll(h.table, func(k string, l *Lease) bool {
-			return l != nil && (l.subnet == h.net1 || l.subnet == h.net2) && len(l.ClientID) <= 32 && len(l.Addr.MAC) == 6 && (l.XID == nil || len(l.XID) == 4)
+			return l != nil && (l.subnet == h.net1 || l.subnet == h.net2) && len(l.ClientID) <= 255 && len(l.Addr.MAC) == 6 && (l.XID == nil || len(l.XID) == 4)
 		})
 }
 
@@ -243,11 +232,11 @@ func verif_inv_dhcp4_spoofer_dhcpSubnet_CopyOptions_1(h *dhcpSubnet, opts packet
 //
 //verif:props C08
 func verif_contract_dhcp4_spoofer_nakPacket(req packet.DHCP4, serverID, clientID []byte) packet.DHCP4 {
-	vRequires(len(serverID) <= 32 && len(clientID) <= 32)
+	vRequires(len(serverID) <= 32 && len(clientID) <= 255)
 	vCanary()
 	vModifiesBytes(req[:cap(req)])
 	r := nakPacket(req, serverID, clientID)
-	vEnsures(r == nil || (300 <= len(r) && len(r) <= 921))
+	vEnsures(r == nil || (300 <= len(r) && len(r) <= 1144))
 	return r
 }
 
@@ -255,12 +244,12 @@ func verif_contract_dhcp4_spoofer_nakPacket(req packet.DHCP4, serverID, clientID
 //
 //verif:props C08
 func verif_contract_dhcp4_spoofer_Handler_findOrCreate(h *Handler, clientID []byte, mac net.HardwareAddr, name string) *Lease {
-	vRequires(spec_dhcp_ok(h) && len(clientID) <= 32 && len(mac) == 6)
+	vRequires(spec_dhcp_ok(h) && len(clientID) <= 255 && len(mac) == 6)
 	vCanary()
 	vModifiesMems("dhcp4_spoofer.Lease", "map:map[string]*github.com/irai/packet/handlers/dhcp4_spoofer.Lease/")
 	l := h.findOrCreate(clientID, mac, name)
 	vEnsures(l != nil && (l.subnet == h.net1 || l.subnet == h.net2))
-	vEnsures(len(l.ClientID) <= 32)
+	vEnsures(len(l.ClientID) <= 255)
 	vEnsures(len(l.Addr.MAC) == 6)
 	vEnsures(l.XID == nil || len(l.XID) == 4)
 	vEnsures(spec_dhcp_ok(h))
@@ -357,40 +346,30 @@ func verif_extern_rand_Read(b []byte) (int, error) {
 }
 
 // forceDecline / forceRelease: total; they copy their arguments and send from a new goroutine
-// (checked as if it ran at once). LIMIT: client identifiers of at most 32 bytes (the staging
-// buffer argument of EncodeDHCP4's contract is per-option uniform).
+// (checked as if it ran at once).
 //
 //verif:props C08
 func verif_contract_dhcp4_spoofer_Handler_forceDecline(h *Handler, clientID []byte, serverIP netip.Addr, chAddr net.HardwareAddr, clientIP netip.Addr, xid []byte) {
-	vRequires(spec_client_ok(h) && len(clientID) <= 32 && (xid == nil || len(xid) == 4))
+	vRequires(spec_client_ok(h) && len(clientID) <= 255 && (xid == nil || len(xid) == 4))
 	vCanary()
 	h.forceDecline(clientID, serverIP, chAddr, clientIP, xid)
 }
 
 //verif:props C08
 func verif_contract_dhcp4_spoofer_Handler_forceRelease(h *Handler, clientID []byte, serverIP netip.Addr, chAddr net.HardwareAddr, clientIP netip.Addr, xid []byte) {
-	vRequires(spec_client_ok(h) && len(clientID) <= 32 && (xid == nil || len(xid) == 4))
+	vRequires(spec_client_ok(h) && len(clientID) <= 255 && (xid == nil || len(xid) == 4))
 	vCanary()
 	h.forceRelease(clientID, serverIP, chAddr, clientIP, xid)
 }
 
-// spec_dhcp_req: the request as ProcessPacket hands it over, plus what Parse and ParseOptions
-// guarantee about it: option values are views of at most 255 bytes (one length byte); the LIMIT
-// of this round is a client identifier of at most 32 bytes.
+// spec_dhcp_req: the request as ProcessPacket hands it over: a message that passed DHCP4.IsValid
+// and the option map DHCP4.ParseOptions built from it (values are views of the message of at most
+// 255 bytes behind the fixed header).
 func spec_dhcp_req(p packet.DHCP4, options packet.DHCP4Options) bool {
-	return spec_dhcp_msg(p, options) &&
-		len(options[packet.DHCP4OptionClientIdentifier]) <= 32 &&
-		len(options[packet.DHCP4OptionParameterRequestList]) <= 255 &&
-		spec_view_behind_header(options[packet.DHCP4OptionParameterRequestList], p)
+	return p.IsValid() == nil && packet.VerifSpecOptionsOf(options, p)
 }
 
-// spec_view_behind_header: an option value as ParseOptions produces it: nil, or a view of the
-// message that starts behind the fixed header and whose capacity ends with the message buffer.
-func spec_view_behind_header(v []byte, p packet.DHCP4) bool {
-	return v == nil || (vSameRegion(v, p) && vOffset(v, p) >= 240 && vOffset(v, p)+cap(v) <= cap(p))
-}
-
-// handleDiscover: total; nil or an OFFER of 300..921 bytes written over the request; keeps the
+// handleDiscover: total; nil or an OFFER of 300..1144 bytes written over the request; keeps the
 // handler invariant.
 //
 //verif:props C08
@@ -403,7 +382,7 @@ func verif_contract_dhcp4_spoofer_Handler_handleDiscover(h *Handler, p packet.DH
 	vModifiesBytes(p[:cap(p)])
 	vModifiesBytes(fakeMAC) // (attackDHCPServer refreshes it)
 	d := h.handleDiscover(p, options)
-	vEnsures(d == nil || (300 <= len(d) && len(d) <= 921))
+	vEnsures(d == nil || (300 <= len(d) && len(d) <= 1144))
 	vEnsures(spec_client_ok(h))
 	vEnsures(h.table != nil && spec_subnet_wf(h.net1) && spec_subnet_wf(h.net2))
 	vEnsures(spec_subnet_options_ok(h.net1) && spec_subnet_options_ok(h.net2))
@@ -424,7 +403,7 @@ func verif_extern_dhcp4_spoofer_Handler_saveConfig(h *Handler, fname string) err
 	return err
 }
 
-// handleRequest: total; nil or an ACK / NAK of 300..921 bytes written over the request; keeps the
+// handleRequest: total; nil or an ACK / NAK of 300..1144 bytes written over the request; keeps the
 // handler invariant.
 //
 //verif:props C08
@@ -436,8 +415,35 @@ func verif_contract_dhcp4_spoofer_Handler_handleRequest(h *Handler, host *packet
 	vModifiesWire()
 	vModifiesBytes(p[:cap(p)])
 	d := h.handleRequest(host, p, options, senderIP)
-	vEnsures(d == nil || (300 <= len(d) && len(d) <= 921))
+	vEnsures(d == nil || (300 <= len(d) && len(d) <= 1144))
 	vEnsures(spec_client_ok(h))
 	vEnsures(spec_dhcp_ok(h))
 	return d
+}
+
+// processClientPacket (a reply of another DHCP server seen on the client port): total.
+//
+//verif:props C08
+func verif_contract_dhcp4_spoofer_Handler_processClientPacket(h *Handler, host *packet.Host, req packet.DHCP4) error {
+	vRequires(spec_dhcp_ok(h) && spec_client_ok(h))
+	vCanary()
+	err := h.processClientPacket(host, req)
+	return err
+}
+
+// ProcessPacket: total on every UDP frame Parse accepts and classes as DHCPv4; keeps the
+// handler invariant. (NOT part of a registered check: it did not finish within 15 minutes.)
+//
+//verif:timeout 120s
+func verif_contract_dhcp4_spoofer_Handler_ProcessPacket(h *Handler, frame packet.Frame) error {
+	vRequires(spec_dhcp_ok(h) && spec_client_ok(h) && packet.VerifSpecFrameUDP(frame) && frame.PayloadID == packet.PayloadDHCP4)
+	vCanary()
+	vModifiesHeap()
+	vModifiesWire()
+	vModifiesBytes(frame.Payload()[:cap(frame.Payload())])
+	vModifiesBytes(fakeMAC)
+	err := h.ProcessPacket(frame)
+	vEnsures(spec_client_ok(h))
+	vEnsures(spec_dhcp_ok(h))
+	return err
 }
